@@ -938,6 +938,18 @@ mutant('LC5-execute-stale-test-inverted', ['C05', 'C02'], [(S, """        if tx_
 mutant('LC9-finality-probe-uses-try_lock', ['C17', 'C05'], [
     (S, "        let tx_state = self.tx_states[finality_idx].lock();\n        if tx_state.status != TransactionStatus::Unconfirmed {", "        let tx_state = self.tx_states[finality_idx].try_lock()?;\n        if tx_state.status != TransactionStatus::Unconfirmed {"),
 ], ['|LC9|'])
+mutant('L4-claim-loop-ignores-finished', ['C05'], [
+    (S, "        while !self.scheduler_ctx.finished() && !self.is_aborted() {\n            if !self.scheduler_ctx.should_schedule", "        while !self.is_aborted() {\n            if !self.scheduler_ctx.should_schedule"),
+], ['|L4|'])
+mutant('N2-marks-estimates-on-successful-validation', ['C05', 'C02'], [
+    (S, "        if conflict {\n            self.metrics.record_version_conflict();", "        if true {\n            self.metrics.record_version_conflict();"),
+], ['|N2|'])
+mutant('S2-commit-nonce-overflow-case-dropped', ['C03'], [
+    ('src/scheduler/ordered_commit.rs', "                    if tx_env.nonce == u64::MAX && expect == u64::MAX {", "                    if false {"),
+], ['|S2|'])
+mutant('D2-deleted-account-never-publishes-basic-none', ['C08', 'C01'], [
+    ('src/incarnation_db.rs', "                    if !self.beneficiary.matches(*address) {", "                    if false {"),
+], ['|D2|'])
 mutant('LC5-validate-stale-test-inverted', ['C05'], [(S, """        if tx_state.incarnation != incarnation {
             self.abort(AbortReason::ParallelError {
                 txid,
